@@ -4,6 +4,9 @@
  *    e:<X>   myth_init() with the environment as it is; the caller states the expected request X
  *            (X = value of MYTH_NUM_WORKERS according to the reference semantics, 0 = default)
  *    i:<X>   implicit initialisation by the first myth_create, environment as it is
+ *    g:<N>:<digits>  the global attributes through the NULL-attribute interface (worker count, then the settings
+ *            named by the digits), then myth_init()
+ *    a suffix k (e.g. a:4k) adds the key-exhaustion test to that generation
  * Every generation reports the number of workers, lets a few threads report their worker index,
  * and finalises.  Events are recorded in "free recording" mode (mutex order). */
 #define _GNU_SOURCE
@@ -24,6 +27,20 @@ int main(int argc, char **argv){
   for (g = 2; g < argc; g++){
     char kind = argv[g][0]; long x = atol(argv[g] + 2); int i; myth_thread_t th[6];
     U("U_Request", 1, x);
+    int keys_test = strchr(argv[g], 'k') != 0;
+    if (kind == 'g'){
+      /* the process-wide attributes through the NULL-attribute interface: the worker count first, then other
+         settings in an order chosen by the caller (digits after the second ':'), then plain myth_init() */
+      const char *o = strchr(argv[g] + 2, ':');
+      myth_globalattr_set_n_workers(0, (size_t)x);
+      for (o = o ? o + 1 : ""; *o; o++){
+        if (*o == '1') myth_globalattr_set_stacksize(0, 256 * 1024);
+        else if (*o == '2') myth_globalattr_set_guardsize(0, 4096);
+        else if (*o == '3') myth_globalattr_set_bind_workers(0, 0);
+        else if (*o == '4') myth_globalattr_set_child_first(0, 1);
+      }
+      myth_init();
+    } else
     if (kind == 'a'){
       myth_globalattr_t ga; myth_globalattr_init(&ga); myth_globalattr_set_n_workers(&ga, (size_t)x);
       myth_globalattr_set_bind_workers(&ga, 0); myth_init_ex(&ga);
@@ -34,6 +51,18 @@ int main(int argc, char **argv){
     U("U_NumWorkers", 1, (long)myth_get_num_workers());
     U("U_WorkerNum", 1, (long)myth_get_worker_num());
     for (i = 0; i < 6; i++) myth_join(th[i], 0);
+    if (keys_test){
+      /* a freshly initialised library hands out exactly 1024 pairwise distinct keys, then refuses; two of them are
+         deleted (first created, then last created) and the rest is left to the next initialisation */
+      static myth_key_t ks[1100]; static char seen[4096]; int n = 0, distinct = 1, j;
+      memset(seen, 0, sizeof seen);
+      while (n < 1100 && myth_key_create(&ks[n], 0) == 0){
+        if (ks[n] < 0 || ks[n] >= 4096 || seen[ks[n]]) distinct = 0; else seen[ks[n]] = 1;
+        n++; }
+      U("U_KeysExhausted", 2, (long)n, (long)distinct);
+      if (n >= 2){ myth_key_delete(ks[0]); myth_key_delete(ks[n - 1]); }
+      (void)j;
+    }
     myth_fini();
   }
   vrt_dump();
